@@ -57,6 +57,21 @@ def cliVerifyMetadata (C : CryptoFns) (trustedFile untrustedFile : Option Bytes)
             | .error e => if e.isCct then (.returned (some 20), false) else (.raised e, false)
           | _ => (.raised .arg, false)                                        -- delegation_name must be a string (186)
 
+/-- how standard output behaves for the process: it takes text; every write fails (`OSError`: a pipe whose reader has gone, a full device — the
+interpreter's `print` raises); there is no standard output object at all (`sys.stdout is None`, file descriptor 1 closed at start-up: `print` does nothing) -/
+inductive Stdout where
+  | takesText | failing | absent
+  deriving DecidableEq, Repr
+
+/-- `verify-metadata` under a given standard output.  The command reports with `print` immediately before it returns (252, 268, 276); on a failing stdout
+that `print` raises and the error escapes `cli()`; on an absent one nothing is reported and the return value is unaffected. -/
+def cliVerifyUnder (C : CryptoFns) (st : Stdout) (trustedFile untrustedFile : Option Bytes) : CliOutcome × Bool :=
+  match st, cliVerifyMetadata C trustedFile untrustedFile with
+  | .takesText, r => r
+  | .failing, (.returned _, _) => (.raised .os, false)
+  | .failing, (o, _) => (o, false)
+  | .absent, (o, _) => (o, false)
+
 /-- Python `str.strip()` whitespace (the characters with `str.isspace()` true) -/
 def isPySpace (c : Nat) : Bool :=
   (9 ≤ c && c ≤ 13) || (28 ≤ c && c ≤ 32) || c = 0x85 || c = 0xa0 || c = 0x1680 || (0x2000 ≤ c && c ≤ 0x200a) ||
